@@ -179,6 +179,35 @@ def run(tier, seed):
                     res.disagreements.append({"channel": "C20/threshold", "case": case, "model": dm["thr"], "impl": di["thr"], "failing_input": False, "what": "threshold differs from the documented formula", "key": "threshold"})
             if di.get("values_dtype") != "float64" or di.get("gamma_dtype") != "float64":
                 res.disagreements.append({"channel": "C20/dtype", "case": case, "model": "float64", "impl": i[:200], "failing_input": True, "what": "values / gamma not float64 with double precision requested", "key": "dtype"})
+    # the progress format (a defect source: thresholds >= 100 used to give a negative precision): the implementation's precision against the
+    # model's `decimalPlaces` at floor(log10 threshold), the floor taken exactly
+    fl, fm = [], []
+    for out in outs:
+        for (op, m, i, line) in out:
+            di = core.parse_resp(i)
+            if op["op"] == "construct" and di.get("construct") == "ok" and di.get("fmt", "_") not in ("_", None) and "thr" in di:
+                thr = Fraction(di["thr"])
+                if thr <= 0:
+                    continue
+                e = 0
+                while Fraction(10) ** (e + 1) <= thr:
+                    e += 1
+                while Fraction(10) ** e > thr:
+                    e -= 1
+                near_power = any(abs(thr / Fraction(10) ** k - 1) < Fraction(1, 10 ** 12) for k in (e, e + 1))
+                fl.append(f"fmt e={e} m=10"); fm.append((op, di["fmt"], thr, near_power))
+    seen_fmt = set()
+    for mline, (op, fmt, thr, near_power) in zip(core.run_driver(fl) if fl else [], fm):
+        want = core.parse_resp(mline)["decimals"]
+        res.count("format-compared")
+        seen_fmt.add(fmt)
+        if fmt != f".{want}f":
+            if near_power:
+                res.ambiguous += 1      # log10 of a float within rounding of a power of ten
+                continue
+            res.disagreements.append({"channel": "C20/format", "case": {"solver": op["solver"], "params": op["params"]}, "model": f".{want}f", "impl": fmt, "failing_input": True,
+                                      "what": f"progress format for threshold {float(thr):.6g} is {fmt}, documented max(0, min(1 - floor(log10 thr), 10)) gives .{want}f", "key": "format"})
+    res.count("distinct-formats", len(seen_fmt))
     # the routes behave identically
     for key, routes in by_set.items():
         vals = {r: (d["iter"], d["values"], d["policy"], d["thr"]) for r, (d, _) in routes.items()}
